@@ -36,6 +36,14 @@ claimed = {
              ref="DESIGN.md §5 C16", technique="contract-based deductive verification (region-based byte heap, append modelled exactly, frame obligations; loop invariants for roman)"),
  "C19": dict(level="proof", text="Proved for all pairs of 63-bit draws: version 4 / variant 10; lock discipline (random only read with randomMutex held, released on every exit) as ghost-state obligations. 'No duplicate within a run' is probabilistic / whole-history and is not decided (stated gap).",
              ref="DESIGN.md §5 C19, §7", technique="contract-based deductive verification (bit-vector postcondition, ghost lock-ownership obligations)"),
+ "C12": dict(level="proof", text="encoding/json's Decoder is modelled as a ghost token stream of the input (assumed contract, jsonschema.go). Proved for every token stream, rule word and MaxObjectKeys: first-token dispatch and rule gates; number and string forms succeed iff the document is exactly one token whose text satisfies the text rules (value as the text rules give); the object loop (invariants over the token stream) succeeds only when the object holds exactly one case-insensitive value member with a number and exactly one unit member with a string, wherever they stand, the result being newSize of that pair; no other key under RuleDisallowUnknownKeys; at most MaxObjectKeys keys (0 = unlimited); nested unknown members are skipped by a depth-counting loop proved to return to the same level; documented sentinels for missing/duplicate/too-big/unexpected-key/wrong-type; a closing brace and end of input are required. Not proved: the converse (every such object is accepted) and the wording of error messages.",
+             ref="DESIGN.md §5 C12", technique="contract-based deductive verification (loop invariants with existential witnesses over a ghost token stream; integer SMT; assumed contract of encoding/json.Decoder.Token/More)"),
+ "C17": dict(level="proof", text="For all eight Unmarshal*/Scan receivers: *receiver == old(*receiver) whenever an error is returned (and only *receiver may change). For every parser entry point (both instantiations): no byte of memory existing at entry changes (heapSame frame obligation), results are scalars or freshly copied strings in the memory model, zero value on error. String and []byte instantiations are verified against the same functional contract, so their values agree. Not decided: equality of error message texts (messages are abstracted), and encoding/json / database/sql callers beyond the methods.",
+             ref="DESIGN.md §5 C17", technique="contract-based deductive verification (frame obligations on a region-based byte heap; per-instantiation verification against one contract)"),
+ "C18": dict(level="proof", text="Every index, slice, nil-dereference, division, type assertion, explicit panic and callee precondition in every function under contract of date, roman, sem, size and uu (parsers, validators, comparers, both instantiations) is an obligation discharged for all inputs, rule words and MaxInputLength values; each DefaultParser returns its ErrInputTooLong (built from a zero-valued input) iff the limit is non-zero and exceeded, and never rejects for length otherwise; loops have unwinding obligations or invariants, those with decreases clauses terminate. Not decided: allocation volume, and termination of loops without a decreases clause.",
+             ref="DESIGN.md §5 C18", technique="contract-based deductive verification (language-level safety obligations generated for every SSA instruction that can panic; integer / bit-vector SMT)"),
+ "C04": dict(level="proof", text="Round trips as lemmas over the contracts of the real Marshal*/Unmarshal* code, for all 2^64 sizes and every setting of the three marshalling switches: MarshalText then UnmarshalText; MarshalJSON (number, quoted-string and object forms) then UnmarshalJSON under the default rule; String() and PrettyString() then UnmarshalText. The chain is: the marshalled bytes have the stated shape (proved from the formatter's append chain); prepareNumber's number is the digit subsequence of the leading digit/space run and its unit the rest (loop invariant with a recursive counting function); strconv.ParseUint(FormatUint(v)) == v (trusted); value x multiplier == size (from Shorten's exactness). For JSON the tokenisation of the three emitted shapes is an explicit trusted axiom about encoding/json (axiomJSONNumber/String/Object). Assumed MaxInputLength 0 or >= 41 and MaxObjectKeys 0 or >= 2. Not decided: nesting inside encoding/json documents (struct fields, slices, maps) - that part is encoding/json's own behaviour.",
+             ref="DESIGN.md §5 C04", technique="contract-based deductive verification (staged lemmas as Go harness functions over contracts; recursive spec function; trusted axioms for strconv round trip and encoding/json tokenisation of three shapes)"),
 }
 
 not_applicable = {}
